@@ -446,6 +446,28 @@ fn real_defaults() -> Vec<String> {
     check!("storage,block", AppBuilder::new().with_storage(TStorage { tag: 3, inner: MockStorage::new() }).with_block(b1.clone()).build(no_init), |_a| None, |a: &App<BankKeeper, MockApi, TStorage>| Some(a.storage().tag), 1001);
     check!("block,storage", AppBuilder::new().with_block(b1.clone()).with_storage(TStorage { tag: 3, inner: MockStorage::new() }).build(no_init), |_a| None, |a: &App<BankKeeper, MockApi, TStorage>| Some(a.storage().tag), 1001);
     check!("none", AppBuilder::new().build(no_init), |_a| None, |_a| None, 12345);
+    // the library's own recording custom module (CachingCustomHandler): it sees exactly the custom messages and
+    // queries that were sent, in order - also those of a transaction that is rolled back afterwards (its cache is
+    // not part of the chain state)
+    {
+        use cw_multi_test::custom_handler::CachingCustomHandler;
+        #[derive(Clone, Debug, Default, PartialEq, serde::Serialize, serde::Deserialize, schemars::JsonSchema)]
+        struct M(String);
+        impl cosmwasm_std::CustomMsg for M {}
+        impl cosmwasm_std::CustomQuery for M {}
+        let handler = CachingCustomHandler::<M, M>::new();
+        let state = handler.state();
+        let mut app = cw_multi_test::BasicAppBuilder::<M, M>::new_custom().with_custom(handler).build(no_init);
+        let s = MockApi::default().addr_make("s");
+        let r1 = app.execute(s.clone(), CosmosMsg::Custom(M("one".into())));
+        let r2 = app.execute_multi(s.clone(), vec![CosmosMsg::Custom(M("two".into())), BankMsg::Send { to_address: s.to_string(), amount: cosmwasm_std::coins(5, "nothing") }.into()]);
+        let _ = app.wrap().query::<cosmwasm_std::Empty>(&cosmwasm_std::QueryRequest::Custom(M("q".into())));
+        let execs: Vec<M> = state.execs().to_vec();
+        let queries: Vec<M> = state.queries().to_vec();
+        if r1.is_err() || r2.is_ok() || execs != vec![M("one".into()), M("two".into())] || queries != vec![M("q".into())] {
+            found.push(format!("CachingCustomHandler: results ({}, {}), recorded messages {:?}, queries {:?}", r1.is_ok(), r2.is_ok(), execs, queries));
+        }
+    }
     // a supplied bank serves everything the DEFAULT staking and distribution keepers do with coins: the transfer of a
     // delegation, the payout of an unbonding at a block update, the mint of a withdrawn reward
     {
